@@ -119,7 +119,9 @@ func c04Options() SearchOptions {
 	o.AllPlatforms = verifBool("allPlatforms")
 	o.NoCrossPlatform = verifBool("noCrossPlatform")
 	o.PipelineOnly = verifBool("pipelineOnly")
-	switch verifIntRange("platforms", 0, 5) {
+	switch verifIntRange("platforms", 0, 6) {
+	case 6: // every major system named: still a filter (entries of other systems stay out)
+		o.Platforms = []string{"linux", "macOS", "windows"}
 	case 4: // `--platform linux,` parses to a list with an empty element
 		o.Platforms = []string{"linux", ""}
 	case 5:
